@@ -2,7 +2,7 @@
 import warnings
 import numpy as np
 from harness.core import Machinery
-from harness.x_eqval import Ids, realise, project, coarse, fine, is_leaf, items, klass, features
+from harness.x_eqval import Ids, Heap, realise, project, coarse, fine, is_leaf, items, klass, features, dmap, has_tag, walk
 
 D1, D2, D3, D4 = [737425, 0, 0], [737426, 3600, 0], [737427, 0, 0], [737428, 43200, 0]
 RI2 = [["i", 0], ["i", 1]]
@@ -39,8 +39,9 @@ def short(v, n=160):
 def case_of(clause, descs, reprs, names=('x', 'y', 'z'), at=None):
     """the `case` of a violation.  Stable keys of the defect PATTERN first - the operation, the clause,
     the class of each value in the direction of the call (cx, cy[, cz]: scalar npscalar list tuple dict
-    dictsub array0d array Series DataFrame), and three ingredient flags (an np.float32 NaN, a 0-d array,
-    an empty array / pandas object anywhere inside) - then the sorts of the concrete values (kx, fx ...)
+    dictsub array0d array Series DataFrame), and ingredient flags (an np.float32 NaN, a 0-d array, an empty
+    array / pandas object, a dict inserted in another order than its key order, a view into a shared buffer,
+    pd.NaT anywhere inside) - then the sorts of the concrete values (kx, fx ...)
     and their reprs.  `at` (decided by TLC, Eq!At) names the classes of the two sub-values at which x and y
     first differ ("-" when the specification calls them equal): the place of the defect for nested values."""
     c = {'op': 'in_' if clause.startswith('in_') else 'eq', 'clause': clause}
@@ -101,13 +102,20 @@ def s2c(ctx, cases, tag):
     for c in cases:
         key = c['ifT'] or c['ifF'] or 'free'
         kinds[key] = kinds.get(key, 0) + 1
-    missing = {'equal_despite_type', 'equal_despite_shape', 'equal_despite_cell', 'copy_unequal', 'plain_equal_values_unequal', 'free'} - set(kinds)
+    missing = {'equal_despite_type', 'equal_despite_shape', 'equal_despite_cell', 'copy_unequal', 'other_realisation_unequal',
+               'plain_equal_values_unequal', 'free'} - set(kinds)
     if missing:
         raise Machinery('vacuous: the generated pairs never pin / free %s' % sorted(missing))
     ctx.extra.setdefault('c14_s2c_pairs_by_pinned_answer', {})[tag] = kinds
+    fam = {'reordered': 0, 'view': 0, 'nat': 0, 'views_sharing_a_buffer': 0}
     for k, c in enumerate(cases):
-        ids = Ids()
+        ids = Ids()                     # one world for both operands: NaN objects and buffers are shared between x and y
         x, y = realise(c['x'], ids), realise(c['y'], ids)
+        f = features([c['x'], c['y']])
+        for nm in ('reordered', 'view', 'nat'):
+            fam[nm] += f[nm]
+        if c['x'][0] == 'v' and c['y'][0] == 'v' and c['x'] != c['y'] and np.shares_memory(x, y):
+            fam['views_sharing_a_buffer'] += 1
         if project(x, ids) != c['x'] or project(y, ids) != c['y']:
             raise Machinery('descriptor does not survive realise/project: %r' % (c,))
         got = outcome(eq, x, y)
@@ -128,7 +136,12 @@ def s2c(ctx, cases, tag):
             ctx.sample({'s2c_case': c, 'observed': got})
         ctx.traces += 1
     fnd.flush()
-    return sorted({repr(c['x']): c['x'] for c in cases}.values(), key=repr)
+    if min(fam.values()) == 0:
+        raise Machinery('vacuous: the generated pairs hold no realisation variants of some family: %r' % fam)
+    ctx.extra.setdefault('c14_s2c_pairs_with_realisation_variants', {})[tag] = fam
+    # the descriptors of TLC's universe; those that occur in the block of realisation variants only are marked
+    plain = {repr(c['x']) for c in cases if not c['var']}
+    return [(d, repr(d) not in plain) for d in sorted({repr(c['x']): c['x'] for c in cases}.values(), key=repr)]
 
 
 def s2c_in(ctx, cases):
@@ -137,7 +150,7 @@ def s2c_in(ctx, cases):
     for k, c in enumerate(cases):
         ids = Ids()
         x = realise(c['x'], ids)
-        seq = [realise(d, Ids()) for d in c['seq']]
+        seq = [realise(d, Ids(ids.heap)) for d in c['seq']]     # fresh NaN objects, the same buffers: views alias x
         got = outcome(in_, x, seq)
         ctx.evals += 1
         ctx.traces += 1
@@ -164,7 +177,16 @@ def S(dt, index, *cells): return ["S", [dt, list(index), list(cells)]]
 def F(dt, index, cols, *cells): return ["F", [dt, list(index), list(cols), list(cells)]]
 def Np(dt, leaf): return ["np", [dt, leaf]]
 def Str(s): return ["s", s]
+def MO(perm, **kw): return ["mo", [list(perm), [[k, kw[k]] for k in sorted(kw)]]]
+def V(buf, off, shape, strides): return ["v", [POOL[buf][0], buf, POOL[buf][1], off, list(shape), list(strides)]]
 NONE = ["n", 0]
+NAT = ["nat", 0]
+RI3 = [["i", 0], ["i", 1], ["i", 2]]
+# the buffers of the driver's own views (buffer numbers 1 .. 9 belong to spec/MC_Eq.tla): number -> (dtype, cells)
+POOL = {21: ("int64", [I(0), I(1), I(0), I(1), I(2), I(0), I(1), I(3)]),
+        22: ("float64", [NaN(0), Fl(1), NaN(0), Fl(1), Fl(2), NaN(0), Fl(1), Fl(7)]),
+        23: ("bool", [["b", 1], ["b", 0], ["b", 1], ["b", 0], ["b", 1], ["b", 1]]),
+        24: ("object", [NONE, I(1), NaN(41), I(1), Str("a"), NONE, I(1), NAT])}
 
 
 def strange():
@@ -209,8 +231,26 @@ def strange():
     ]
 
 
-LAYOUT = ('short_log', 'misplaced_value', 'misplaced_cell', 'unknown_op')
-LEAFPOOL = [NONE, ["b", 1], I(0), I(1), I(2), Fl(1), Fl(2), Fl(5, 2), ["inf", 1], Str("a"), Str("b"), Str(""), ["d", D1], ["ts", D1], ["ts", D2],
+def strange_variants():
+    """hand-picked realisation variants and look-alikes (each realised once: they are copies / near misses of each other)"""
+    return [
+        # the same mapping in several insertion orders, at several depths (also inside tuples, object arrays, dict subclasses)
+        M(a=I(1), b=I(2), c=I(3)), MO([3, 1, 2], a=I(1), b=I(2), c=I(3)), MO([2, 3, 1], a=I(1), b=I(2), c=I(3)), MO([3, 2, 1], a=I(1), b=I(2), c=I(4)),
+        MO([2, 1], a=NaN(19), b=L(NaN(20))), M(a=NaN(21), b=L(NaN(22))), M(k=T(MO([2, 1], a=I(1), b=I(2)))), M(k=T(M(a=I(1), b=I(2)))),
+        MO([2, 1], a=MO([2, 1], a=I(1), b=I(2)), b=L()), M(a=M(a=I(1), b=I(2)), b=L()),
+        ["Mo", ["Dict", [2, 1], [["a", I(1)], ["b", NaN(23)]]]], Sub("Dict", a=I(1), b=NaN(24)), ["Mo", ["dictattr", [2, 1], [["a", I(1)], ["b", I(2)]]]],
+        A("object", (1,), MO([2, 1], a=I(1), b=I(2))), A("object", (1,), M(a=I(1), b=I(2))),
+        MO([2, 1], a=A("int64", (2,), I(1), I(2)), b=S("float64", RI2, Fl(1), NaN(0))), M(a=A("int64", (2,), I(1), I(2)), b=S("float64", RI2, Fl(1), NaN(0))),
+        # missing-value look-alikes: None / NaN / NaT in the same position of the carriers that hold objects
+        S("object", RI2, NONE, NONE), S("object", RI2, NaN(26), NaN(27)), S("object", RI2, NONE, NaN(28)), S("object", RI2, NAT, NONE),
+        F("object", RI2, [Str("a"), Str("b")], NONE, I(1), NaN(30), Str("x")), F("object", RI2, [Str("a"), Str("b")], NaN(31), I(1), NONE, Str("x")),
+        A("object", (1, 2), NONE, I(1)), A("object", (1, 2), NaN(33), I(1)),
+        L(NONE, I(1)), L(NaN(34), I(1)), L(NAT, I(1)), T(NAT), M(a=NONE), M(a=NaN(35)), M(a=NAT), NAT, L(M(k=S("object", [I(0)], NONE))), L(M(k=S("object", [I(0)], NaN(36)))),
+    ]
+
+
+LAYOUT = ('short_log', 'misplaced_value', 'misplaced_cell', 'unknown_op', 'bad_descriptor')
+LEAFPOOL = [NONE, NAT, ["b", 1], I(0), I(1), I(2), Fl(1), Fl(2), Fl(5, 2), ["inf", 1], Str("a"), Str("b"), Str(""), ["d", D1], ["ts", D1], ["ts", D2],
             ["d64", D3], Np("int64", I(1)), Np("float64", Fl(2)), Np("float32", Fl(5, 2)), Np("bool_", ["b", 1]), Np("str_", Str("b"))]
 
 
@@ -249,6 +289,68 @@ class Gen(object):
         if k == 'str': return [Str("abcd"[i]) for i in range(n)]
         return [["ts", [D1[0] + i, 0, 0]] for i in range(n)]
 
+    def perm(self, n, other_than=None):
+        """an insertion order of n keys (1-based positions in key order) that is not `other_than`"""
+        while True:
+            p = list(range(1, n + 1))
+            self.rng.shuffle(p)
+            if p != other_than:
+                return p
+
+    def order(self, d):
+        """dict descriptor d (in key order) realised in a random insertion order (half of the time when it has >= 2 keys)"""
+        kvs = d[1] if d[0] == 'm' else d[1][1]
+        if len(kvs) < 2 or self.rng.random() < 0.5:
+            return d
+        p = self.perm(len(kvs), list(range(1, len(kvs) + 1)))
+        return ["mo", [p, kvs]] if d[0] == 'm' else ["Mo", [d[1][0], p, kvs]]
+
+    def layout(self, buf, rank=None):
+        """a shape and element strides for a view into POOL[buf], and the offsets at which it stays inside the buffer"""
+        n = len(POOL[buf][1])
+        while True:
+            rank = rank if rank is not None else self.rng.choice([1, 1, 1, 2, 2, 0])
+            if rank == 0:
+                sh, st = (), ()
+            elif rank == 1:
+                sh, st = (self.rng.choice([1, 2, 3, 4]),), (self.rng.choice([1, 1, 2, 3, -1, -2]),)
+            else:
+                sh = self.rng.choice([(2, 2), (2, 3), (3, 2), (2, 1), (1, 2)])
+                st = self.rng.choice([(sh[1], 1), (1, sh[0]), (sh[1] + 1, 1), (1, 1), (2, 1), (-sh[1], 1), (0, 1)])
+            pos = [sum(i * t for i, t in zip(idx, st)) for idx in np.ndindex(*sh)]
+            offs = list(range(-min(pos), n - max(pos)))
+            if offs:
+                return sh, st, offs
+
+    def view(self, rank=None, numeric=False):
+        """a view into a pool buffer (numeric: not the object buffer - pandas re-types object cells when it is handed an
+        object array, so Series / frames are built on views of numeric buffers only)"""
+        buf = self.rng.choice([b for b in sorted(POOL) if not (numeric and POOL[b][0] == 'object')])
+        sh, st, offs = self.layout(buf, rank)
+        return V(buf, self.rng.choice(offs), sh, st)
+
+    def view_family(self):
+        """views of ONE buffer with ONE shape and strides at different offsets (a[1:] / a[:-1], two columns, overlapping
+        windows): they share memory and, the pool buffers being periodic, some of them hold the same cells"""
+        buf = self.rng.choice(sorted(POOL))
+        while True:
+            sh, st, offs = self.layout(buf)
+            if len(offs) >= 2:
+                break
+        offs = self.rng.sample(offs, min(len(offs), 3))
+        vs = [V(buf, o, sh, st) for o in offs]
+        numeric = POOL[buf][0] != 'object'
+        if len(sh) == 1 and 0 not in st and numeric and self.rng.random() < 0.5:
+            ix = self.index(sh[0])
+            return [["Sv", [ix, v]] for v in vs]
+        if len(sh) == 2 and 0 not in st and numeric and self.rng.random() < 0.5:
+            ix, cols = self.index(sh[0]), [Str("abc"[j]) for j in range(sh[1])]
+            return [["Fv", [ix, cols, v]] for v in vs]
+        if self.rng.random() < 0.3:
+            wrap = self.rng.choice([lambda v: L(v), lambda v: M(k=v), lambda v: T(I(1), v), lambda v: A("object", (1,), v)])
+            return [wrap(v) for v in vs]
+        return vs
+
     def value(self, depth):
         r = self.rng.random()
         if depth <= 0 or r < 0.25:
@@ -256,9 +358,11 @@ class Gen(object):
         n = self.rng.choice([0, 1, 2, 2, 3])
         if r < 0.40: return L(*[self.value(depth - 1) for _ in range(n)])
         if r < 0.50: return T(*[self.value(depth - 1) for _ in range(n)])
-        if r < 0.62: return M(**{k: self.value(depth - 1) for k in self.rng.sample(["a", "b", "c", "d"], n)})
-        if r < 0.67: return Sub(self.rng.choice(["Dict", "dictattr"]), **{k: self.value(depth - 1) for k in self.rng.sample(["a", "b", "c"], n)})
+        if r < 0.62: return self.order(M(**{k: self.value(depth - 1) for k in self.rng.sample(["a", "b", "c", "d"], n)}))
+        if r < 0.67: return self.order(Sub(self.rng.choice(["Dict", "dictattr"]), **{k: self.value(depth - 1) for k in self.rng.sample(["a", "b", "c"], n)}))
         if r < 0.80:
+            if self.rng.random() < 0.3:
+                return self.view()
             dt = self.rng.choice(["int64", "float64", "float64", "bool"])
             sh = self.shape()
             return A(dt, sh, *[self.num(dt) for _ in range(int(np.prod(sh)))])
@@ -266,6 +370,9 @@ class Gen(object):
             sh = self.rng.choice([(), (1,), (2,), (1, 2), (2, 1)])
             return A("object", sh, *[self.value(depth - 1) for _ in range(int(np.prod(sh)))])
         if r < 0.94:
+            if self.rng.random() < 0.2:
+                v = self.view(1, numeric=True)
+                return ["Sv", [self.index(v[1][4][0]), v]]
             dt = self.rng.choice(["int64", "float64", "object"])
             n = self.rng.choice([0, 1, 2, 3])
             cells = [self.value(depth - 1) if dt == 'object' else self.num(dt) for _ in range(n)]
@@ -275,6 +382,69 @@ class Gen(object):
         cells = [self.leaf() if dt == 'object' else self.num(dt) for _ in range(n * m)]
         cols = [Str("abc"[j]) for j in range(m)] if self.rng.random() < 0.8 else [I(j) for j in range(m)]
         return F('object' if n * m == 0 else dt, self.index(n), cols, *cells)
+
+    def reorder(self, d):
+        """the same value with every dict of >= 2 keys, at every depth, inserted in another order (None when there is none)"""
+        hit = [False]
+
+        def go(x):
+            k, p = x[0], x[1]
+            kv = lambda kvs: [[kk, go(y)] for kk, y in kvs]
+            if k in ('t', 'l'): return [k, [go(y) for y in p]]
+            if k in ('m', 'mo', 'M', 'Mo'):
+                cls = p[0] if k in ('M', 'Mo') else None
+                kvs = kv(p if k == 'm' else p[1] if k in ('M', 'mo') else p[2])
+                old = list(range(1, len(kvs) + 1)) if k in ('m', 'M') else p[0] if k == 'mo' else p[1]
+                new = old
+                if len(kvs) >= 2:
+                    new = self.perm(len(kvs), old)
+                    hit[0] = True
+                if new == list(range(1, len(kvs) + 1)):
+                    return ["m", kvs] if cls is None else ["M", [cls, kvs]]
+                return ["mo", [new, kvs]] if cls is None else ["Mo", [cls, new, kvs]]
+            if k in ('a', 'S') and p[0] == 'object': return [k, [p[0], p[1], [go(y) for y in p[2]]]]
+            if k == 'F' and p[0] == 'object': return [k, [p[0], p[1], p[2], [go(y) for y in p[3]]]]
+            return x
+        out = go(d)
+        return out if hit[0] else None
+
+    def rehouse(self, d):
+        """a view at another offset of its buffer with the same shape and strides (None when there is no other offset)"""
+        if d[0] in ('Sv', 'Fv'):
+            w = self.rehouse(d[1][-1])
+            return None if w is None else [d[0], d[1][:-1] + [w]]
+        if d[0] != 'v':
+            return None
+        dt, buf, bc, off, sh, st = d[1]
+        pos = [sum(i * t for i, t in zip(idx, st)) for idx in np.ndindex(*sh)]
+        offs = [o for o in range(-min(pos), len(bc) - max(pos)) if o != off]
+        return ["v", [dt, buf, bc, self.rng.choice(offs), sh, st]] if offs else None
+
+    def missing(self, d):
+        """the same value with one missing-value marker held as an object (None / NaN / NaT) replaced by another marker"""
+        spots = [n for n in walk(d) if n[0] in ('n', 'nan', 'nat')]
+        if not spots:
+            return None
+        target = self.rng.choice(spots)
+        new = self.rng.choice([m for m in (NONE, NaN(self.nanid()), NAT) if m[0] != target[0]])
+        done = [False]
+
+        def go(x):
+            if x is target and not done[0]:
+                done[0] = True
+                return new
+            k, p = x[0], x[1]
+            kv = lambda kvs: [[kk, go(y)] for kk, y in kvs]
+            if k in ('t', 'l'): return [k, [go(y) for y in p]]
+            if k == 'm': return [k, kv(p)]
+            if k == 'M': return [k, [p[0], kv(p[1])]]
+            if k == 'mo': return [k, [p[0], kv(p[1])]]
+            if k == 'Mo': return [k, [p[0], p[1], kv(p[2])]]
+            if k in ('a', 'S') and p[0] == 'object': return [k, [p[0], p[1], [go(y) for y in p[2]]]]
+            if k == 'F' and p[0] == 'object': return [k, [p[0], p[1], p[2], [go(y) for y in p[3]]]]
+            return x
+        out = go(d)
+        return out if done[0] and out != d else None
 
     def variants(self, d):
         """values that are close to d: another container type, another shape / dtype / index, one
@@ -292,6 +462,11 @@ class Gen(object):
                 out.append(["m", p[:-1]])
         if k == 'M':
             out.append(["m", p[1]])
+        if k == 'mo':
+            out.append(["Mo", ["Dict", p[0], p[1]]])
+            out.append(["m", p[1][:-1]])
+        if k == 'Mo':
+            out.append(["mo", [p[1], p[2]]])
         if k == 'a':
             dt, sh, cells = p
             n = len(cells)
@@ -311,7 +486,7 @@ class Gen(object):
                 if n and dt != 'object':
                     out.append(F(dt, [I(i) for i in range(sh[0])], [I(j) for j in range(sh[1])], *cells))
             if len(sh) == 0:
-                out.append(cells[0])
+                out.append(cells[0] if cells[0][0] != 'nan' else NaN(self.nanid()))
                 out.append(A(dt, (1,), *cells))
         if k == 'S':
             dt, ix, cells = p
@@ -324,7 +499,7 @@ class Gen(object):
             dt, ix, cols, cells = p
             out.append(F(dt, ix, [Str("xyz"[j]) for j in range(len(cols))], *cells))
         its = items(d)
-        if its and k != 'F' and not (k in ('a', 'S') and p[0] != 'object'):
+        if its and k not in ('F', 'v', 'Sv', 'Fv') and not (k in ('a', 'S') and p[0] != 'object'):
             j = self.rng.randrange(len(its))
             for new in (self.twin(its[j]), self.other(its[j])):
                 if new is not None:
@@ -357,6 +532,10 @@ class Gen(object):
             return [k, p[:j] + [[p[j][0], new]] + p[j + 1:]]
         if k == 'M':
             return [k, [p[0], p[1][:j] + [[p[1][j][0], new]] + p[1][j + 1:]]]
+        if k == 'mo':
+            return [k, [p[0], p[1][:j] + [[p[1][j][0], new]] + p[1][j + 1:]]]
+        if k == 'Mo':
+            return [k, [p[0], p[1], p[2][:j] + [[p[2][j][0], new]] + p[2][j + 1:]]]
         if k in ('a', 'S'):
             return [k, [p[0], p[1], p[2][:j] + [new] + p[2][j + 1:]]]
         return d
@@ -367,70 +546,92 @@ def nontrivial(d):
 
 
 def universe(ctx, base, nrandom):
-    """descriptors of the universe: TLC's abstract universe, the hand-picked corners, seeded random
-    nestings and variants of them; without duplicates (copies are added by the caller)"""
+    """descriptors of the universe: TLC's abstract universe and realisation variants, the hand-picked corners, seeded
+    random nestings, variants of them (near values and other realisations of the same value: every dict re-ordered at
+    every depth, views at another offset of the shared buffer, another missing-value marker) and families of views into
+    one buffer; without duplicates (copies are added by the caller).  Returns the descriptors, for each the number of
+    realisations wanted beyond the first (0: the universe holds other realisations / look-alikes of it anyway), and the
+    pairs (i, j) of descriptors that were made as two realisations of one value or as look-alikes, for the in_ calls."""
     g = Gen(ctx.rng)
-    ds = list(base) + strange()
-    rnd = []
+    known = {repr(d) for d, _ in base}
+    ds = []
+    for d, var in base:
+        nested_again = d[0] == 'l' and len(d[1]) == 1 and repr(d[1][0]) in known        # MC_Eq!Nest
+        once = (var and d[0] not in ('Sv', 'Fv') and not (has_tag(d, ('v',)) and d[0] != 'v')) or (nested_again and not ctx.quick)
+        ds.append((d, 0 if once else 1))
+    ds += [(d, 1) for d in strange()] + [(d, 0) for d in strange_variants()]
+    rnd, twins = [], []
     while len(rnd) < nrandom:
+        if ctx.rng.random() < 0.12:
+            fam = g.view_family()
+            rnd.extend(fam)
+            twins += [(repr(fam[0]), repr(f)) for f in fam[1:]]
+            continue
         d = g.value(ctx.rng.choice([1, 2, 2, 3, 4]))
         rnd.append(d)
+        for r in (g.reorder(d), g.rehouse(d), g.missing(d)):
+            if r is not None:
+                rnd.append(r)
+                twins.append((repr(d), repr(r)))
         vs = g.variants(d)
         ctx.rng.shuffle(vs)
-        rnd.extend(vs[:3])
-    ds += rnd[:nrandom]
-    seen, out = set(), []
-    for d in ds:
+        rnd.extend(vs[:2])
+    ds += [(d, 1) for d in rnd[:nrandom]]
+    seen, out, more = {}, [], []
+    for d, m in ds:
         if repr(d) not in seen:
-            seen.add(repr(d))
+            seen[repr(d)] = len(out)
             out.append(d)
-    return out
+            more.append(m)
+    return out, more, sorted({(seen[a], seen[b]) for a, b in twins if a in seen and b in seen and a != b})
 
 
-def build(descs):
-    """every descriptor realised twice: the value and a structural copy (fresh NaN objects, fresh
-    containers); the logged descriptor is the projection of the real object"""
-    vals, logged = [], []
-    keep = []
-    for d in descs:
-        for _ in (0, 1):
-            ids = Ids()
-            v = realise(d, ids)
+def build(descs, more=None, deep=True):
+    """every descriptor realised twice (once where more[k] = 0): the value and a structural copy (fresh NaN objects,
+    fresh containers); the logged descriptor is the projection of the real object.  All first realisations live in
+    ONE world (one Heap): views with one buffer number share memory across the universe.  The copy of a descriptor
+    that holds a view lives in a world of its own (other memory, logged with its own buffer numbers); when `deep`,
+    it is also realised once more in the shared world (another view object on the same memory).
+    Returns the values, the logged descriptors, the Ids and, per value, the index of its descriptor."""
+    vals, logged, keep, origin = [], [], [], []
+    shared, worlds = Heap(), 0
+    for n, d in enumerate(descs):
+        plan = [shared, shared]
+        if has_tag(d, ('v', 'Sv', 'Fv')):
+            plan = [shared, shared, None] if deep else [shared, None]
+        if more is not None and more[n] == 0:
+            plan = [shared]
+        for heap in plan:
+            dd = d
+            if heap is None:
+                worlds += 1
+                heap, dd = Heap(), dmap(d, buf=lambda b, w=worlds: b + 100 * w)
+            ids = Ids(heap)
+            v = realise(dd, ids)
             pd_ = project(v, ids)
-            if pd_ != d:
-                raise Machinery('descriptor does not survive realise/project: %r -> %r' % (d, pd_))
+            if pd_ != dd:
+                raise Machinery('descriptor does not survive realise/project: %r -> %r' % (dd, pd_))
             keep.append(ids)
             vals.append(v)
+            origin.append(n)
     # NaN identities must differ between objects: renumber per value
     for k, (v, ids) in enumerate(zip(vals, keep)):
         logged.append(renumber(project(v, ids), 10000 * (k + 1)))
-    return vals, logged, keep
+    return vals, logged, keep, origin
 
 
 def renumber(d, base):
-    k, p = d[0], d[1]
-    if k == 'nan':
-        return [k, p + base if p else 0]
-    if k == 'np':
-        return [k, [p[0], renumber(p[1], base)]]
-    if k in ('t', 'l'):
-        return [k, [renumber(x, base) for x in p]]
-    if k == 'm':
-        return [k, [[kk, renumber(x, base)] for kk, x in p]]
-    if k == 'M':
-        return [k, [p[0], [[kk, renumber(x, base)] for kk, x in p[1]]]]
-    if k in ('a', 'S'):
-        return [k, [p[0], p[1], [renumber(x, base) for x in p[2]]]]
-    if k == 'F':
-        return [k, [p[0], p[1], p[2], [renumber(x, base) for x in p[3]]]]
-    return d
+    return dmap(d, nan=lambda k: k + base if k else 0)
 
 
 def c2s(ctx, base, nrandom, nin, descs=None):
     from pyg_base import eq, in_
-    descs = descs if descs is not None else universe(ctx, base, nrandom)
-    vals, logged, keep = build(descs)
+    descs, more, twins = (descs, None, []) if descs is not None else universe(ctx, base, nrandom)
+    vals, logged, keep, origin = build(descs, more, deep=not ctx.quick)
     n = len(vals)
+    where = {}
+    for i, k in enumerate(origin):
+        where.setdefault(k, []).append(i)
     obs = [{'op': 'hdr', 'n': n}]
     obs += [{'op': 'val', 'id': i + 1, 'desc': logged[i]} for i in range(n)]
     for i in range(n):
@@ -442,7 +643,12 @@ def c2s(ctx, base, nrandom, nin, descs=None):
         i = ctx.rng.randrange(n)
         seq = [ctx.rng.randrange(n) for _ in range(ctx.rng.choice([0, 1, 2, 3, 5, 8]))]
         if seq and ctx.rng.random() < 0.5:
-            seq[ctx.rng.randrange(len(seq))] = ctx.rng.choice([i, i ^ 1])    # the value itself or its copy
+            seq[ctx.rng.randrange(len(seq))] = ctx.rng.choice([i] + where[origin[i]])    # the value itself or a copy of it
+        elif seq and twins and ctx.rng.random() < 0.6:
+            a, b = ctx.rng.choice(twins)                     # another realisation of the value / a look-alike of it
+            a, b = ctx.rng.choice([(a, b), (b, a)])
+            i = ctx.rng.choice(where[a])
+            seq[ctx.rng.randrange(len(seq))] = ctx.rng.choice(where[b])
         ins.append({'op': 'in', 'i': i + 1, 'seq': [j + 1 for j in seq], 'out': outcome(in_, vals[i], [vals[j] for j in seq])})
     obs += ins
     ctx.evals += len(ins)
@@ -450,7 +656,8 @@ def c2s(ctx, base, nrandom, nin, descs=None):
     for k, (v, ids) in enumerate(zip(vals, keep)):
         if renumber(project(v, ids), 10000 * (k + 1)) != logged[k]:
             ctx.violation('operand_changed', case_of('operand_changed', [logged[k]], [short(v)], names=('x',)), {'after': project(v, ids)})
-    bad = ctx.validate('Trace_Eq', obs, whole=True)
+    # (the thorough matrix is one log of > 1 M lines: it needs the heap the thorough tier always had, whatever VERIF_TLC_HEAP says)
+    bad = ctx.validate('Trace_Eq', obs, whole=True, **({'heap': '6g'} if len(obs) > 600000 else {}))
     fnd = Findings(ctx, 'c2s')
     for line, verdict in bad:
         o = obs[line - 1]
@@ -487,28 +694,46 @@ def c2s(ctx, base, nrandom, nin, descs=None):
     for o in obs[1 + n:]:
         key = o['op'] + ':' + o['out'].split(':')[0]
         outs[key] = outs.get(key, 0) + 1
-    ctx.extra['c14_universe'] = {'values_with_copies': n, 'cells': n * n, 'in_calls': len(ins), 'outcomes': outs}
+    fam = {nm: sum(1 for d in logged if features([d])[nm]) for nm in ('reordered', 'view', 'nat')}
+    aliased = sum(1 for i in range(n) for j in range(n) if i != j and logged[i][0] == 'v' and logged[j][0] == 'v'
+                  and logged[i][1][1] == logged[j][1][1] and np.shares_memory(vals[i], vals[j]))
+    ctx.extra['c14_universe'] = {'values_with_copies': n, 'cells': n * n, 'in_calls': len(ins), 'outcomes': outs,
+                                 'values_holding_a_realisation_variant': fam, 'cells_between_arrays_sharing_memory': aliased,
+                                 'descriptor_pairs_made_as_realisations_or_lookalikes': len(twins)}
+    if len(descs) > 50 and (min(fam.values()) == 0 or aliased == 0):
+        raise Machinery('vacuous: the observed matrix holds no realisation variants of some family: %r, aliased cells %d' % (fam, aliased))
     return n
 
 
 def run(ctx):
-    ctx.rule = ('MC: EqSpec is an equivalence on the abstract universe (every pair a state, third value quantified). '
-                'S2C: every TLC-enumerated pair of descriptors realised as Python values, eq compared with what the statement pins; '
-                'in_ on TLC-enumerated (value, sequence). C2S: full matrix eq(x, y) over TLC\'s universe + hand-picked corners + seeded random '
-                'nestings, each with a structural copy, validated cell by cell (boolean, reflexive on copies, symmetric, transitive over '
+    ctx.rule = ('MC: EqSpec is an equivalence on the abstract universe (every pair a state, third value quantified); a second block of '
+                'pairs holds REALISATION VARIANTS of values - every insertion order of the dicts of a value at every depth, arrays / Series / '
+                'frames that are views into one shared buffer at every offset and stride next to arrays owning the same cells, look-alikes '
+                'with None / NaN / NaT in the same position - whose value is Norm(descriptor); what the statement pins is a function of the '
+                'values alone. Mechanism models inside TLC: the recursion on realisations agrees with the law, three shortcuts that look at '
+                'the realisation (insertion-ordered dict comparison, same-buffer-same-layout, pandas equals) are refuted. '
+                'S2C: every TLC-enumerated pair of descriptors realised as Python values IN ONE WORLD (views of one buffer number share '
+                'memory between the operands), eq compared with what the statement pins; in_ on TLC-enumerated (value, sequence). '
+                'C2S: full matrix eq(x, y) over TLC\'s universe + hand-picked corners + seeded random nestings (random insertion orders, '
+                'views into shared pool buffers, re-ordered / re-housed / other-missing-marker variants of each random value), each '
+                'with a structural copy (values holding views: a second view object on the same memory and a copy in other memory), '
+                'validated cell by cell (boolean, reflexive on copies and on other realisations, symmetric, transitive over '
                 'every third value, pinned answers) by Trace_Eq. Non-trivial = a pair of different non-scalar objects that are equal '
                 '(C2S) or a pair of different descriptors whose answer is pinned (S2C).')
     ctx.mc('MC_Eq', 'MC_Eq_quick.cfg' if ctx.quick else 'MC_Eq_thorough.cfg')
-    ctx.mc('MC_Eq', 'MC_Eq_in.cfg')
+    ctx.mc('MC_Eq', 'MC_Eq_in.cfg' if ctx.quick else 'MC_Eq_in_thorough.cfg')
     # mechanism models against the law level, inside TLC only: today's recursion is expected to break
     # the statement on the model already; the recursion with the proposed repairs must satisfy it
     ctx.mc('MC_EqMech', 'MC_EqMech_today.cfg')
     for inv in (('TodayTotal', 'TodaySymmetric') if ctx.quick else ('TodayTotal', 'TodaySymmetric', 'TodayPinned', 'TodayCopies')):
         ctx.mc('MC_EqMech', 'MC_EqMech_today_%s.cfg' % inv, must_fail=inv)
     ctx.mc('MC_EqMech', 'MC_EqMech_fixed_quick.cfg' if ctx.quick else 'MC_EqMech_fixed_thorough.cfg')
+    # shortcuts that look at the realisation instead of the value: each must be refuted on the block of variants
+    for inv in (() if ctx.quick else ('RealOrderPinned', 'RealAliasPinned', 'RealMissingPinned')):
+        ctx.mc('MC_EqMech', 'MC_EqMech_real_%s.cfg' % inv, must_fail=inv)
     base = s2c(ctx, ctx.generate('MC_Eq', 'MC_Eq_gen1.cfg' if ctx.quick else 'MC_Eq_gen3.cfg'), 'eq')
-    s2c_in(ctx, ctx.generate('MC_Eq', 'MC_Eq_genin.cfg'))
-    c2s(ctx, base, 60 if ctx.quick else 250, 300 if ctx.quick else 3000)
+    s2c_in(ctx, ctx.generate('MC_Eq', 'MC_Eq_genin.cfg' if ctx.quick else 'MC_Eq_genin_thorough.cfg'))
+    c2s(ctx, base, 50 if ctx.quick else 110, 300 if ctx.quick else 3000)
     ctx.exhaustive = False
     ctx.assumptions += [
         'numpy booleans count as booleans (eq returns np.bool_ from np.all)',
@@ -519,6 +744,12 @@ def run(ctx):
         'Series have no name, indexes no names',
         'arrays / pandas objects of equal shape, index, columns and cells that are not structural copies of each other (int64 vs float64 '
         'cells ...) are bound by the equivalence axioms only (named deviation SameCellsOtherCarrier): the statement says "only if"',
+        'a dict is its key -> value mapping: the same mapping inserted in another order is a structural copy (== on dicts does not look '
+        'at the order); an array is its dtype, shape and cells wherever they live: a view is a structural copy of an array owning the '
+        'same cells, and two views of one buffer are equal iff their cells are (Eq!Norm)',
+        'pd.NaT (the one object, held in lists / tuples / dicts / object-dtype arrays, Series, frames) is a scalar of the universe: equal '
+        'to itself, different from None and every other value; whether it counts as a NaN is not pinned (named deviation NaTIsMissing); '
+        'np.datetime64("NaT") and NaT cells of datetime64 arrays are outside the universe',
         'small scope: MC / S2C on the fixed abstract universe of spec/MC_Eq.tla; C2S on the values actually built (seeded)',
     ]
 
@@ -547,21 +778,6 @@ def replay(ctx, body):
 
 
 def renumber_back(d):
-    """descriptors in replay files carry the NaN identities of the logged universe; bring them back
-    under TLC's integer range for a new universe"""
-    k, p = d[0], d[1]
-    if k == 'nan':
-        return [k, p % 10000 if p else 0]
-    if k == 'np':
-        return [k, [p[0], renumber_back(p[1])]]
-    if k in ('t', 'l'):
-        return [k, [renumber_back(x) for x in p]]
-    if k == 'm':
-        return [k, [[kk, renumber_back(x)] for kk, x in p]]
-    if k == 'M':
-        return [k, [p[0], [[kk, renumber_back(x)] for kk, x in p[1]]]]
-    if k in ('a', 'S'):
-        return [k, [p[0], p[1], [renumber_back(x) for x in p[2]]]]
-    if k == 'F':
-        return [k, [p[0], p[1], p[2], [renumber_back(x) for x in p[3]]]]
-    return d
+    """descriptors in replay files carry the NaN identities and the buffer numbers of the logged universe; bring
+    them back under TLC's integer range / into one world for a new universe"""
+    return dmap(d, nan=lambda k: k % 10000 if k else 0, buf=lambda b: b % 100)
